@@ -6,53 +6,53 @@ Local Open Scope Z_scope.
 Local Open Scope bool_scope.
 
 (* ivg:  RGBAColor *)
-Definition go_ivg_RGBAColor v_c :=
+Definition go_ivg_RGBAColor (v_c : rgba) :=
 (mkGColor 0 v_c).
 
 (* ivg:  PaletteIndexColor *)
-Definition go_ivg_PaletteIndexColor v_i :=
+Definition go_ivg_PaletteIndexColor (v_i : Z) :=
 (mkGColor 1 (mkRGBA (v_i mod 64) 0 0 0)).
 
 (* ivg:  CRegColor *)
-Definition go_ivg_CRegColor v_i :=
+Definition go_ivg_CRegColor (v_i : Z) :=
 (mkGColor 2 (mkRGBA (v_i mod 64) 0 0 0)).
 
 (* ivg:  BlendColor *)
-Definition go_ivg_BlendColor v_t v_c0 v_c1 :=
+Definition go_ivg_BlendColor (v_t : Z) (v_c0 : Z) (v_c1 : Z) :=
 (mkGColor 3 (mkRGBA v_t v_c0 v_c1 0)).
 
 (* ivg: Color rgba *)
-Definition go_ivg_Color_rgba v_c :=
+Definition go_ivg_Color_rgba (v_c : gcolor) :=
 (gdata v_c).
 
 (* ivg: Color paletteIndex *)
-Definition go_ivg_Color_paletteIndex v_c :=
+Definition go_ivg_Color_paletteIndex (v_c : gcolor) :=
 (cr (gdata v_c)).
 
 (* ivg: Color cReg *)
-Definition go_ivg_Color_cReg v_c :=
+Definition go_ivg_Color_cReg (v_c : gcolor) :=
 (cr (gdata v_c)).
 
 (* ivg: Color blend *)
-Definition go_ivg_Color_blend v_c :=
+Definition go_ivg_Color_blend (v_c : gcolor) :=
 let v_t := 0 in
 let v_c0 := 0 in
 let v_c1 := 0 in
 ((cr (gdata v_c)), (cg (gdata v_c)), (cb (gdata v_c))).
 
 (* ivg:  ValidAlphaPremulColor *)
-Definition go_ivg_ValidAlphaPremulColor v_c :=
+Definition go_ivg_ValidAlphaPremulColor (v_c : rgba) :=
 ((((cr v_c) <=? (ca v_c)) && ((cg v_c) <=? (ca v_c))) && ((cb v_c) <=? (ca v_c))).
 
 (* ivg: Color RGBA *)
-Definition go_ivg_Color_RGBA v_c :=
+Definition go_ivg_Color_RGBA (v_c : gcolor) :=
 if ((negb ((gtyp v_c) =? 0)) || (negb (go_ivg_ValidAlphaPremulColor (gdata v_c)))) then (
 ((mkRGBA 0 0 0 255), false))
 else (
 ((gdata v_c), true)).
 
 (* ivg:  DecodeColor1 *)
-Definition go_ivg_DecodeColor1 v_x :=
+Definition go_ivg_DecodeColor1 (v_x : Z) :=
 if (v_x >=? 128) then (
 if (v_x >=? 192) then (
 (go_ivg_CRegColor v_x))
@@ -81,7 +81,7 @@ let v_red := (nth (Z.to_nat v_x) Tables.dc1Table 0) in
 (go_ivg_RGBAColor (mkRGBA v_red v_green v_blue 255)))).
 
 (* ivg: Color Resolve *)
-Fixpoint go_ivg_Color_Resolve (fuel : nat) v_c v_palette v_cReg {struct fuel} :=
+Fixpoint go_ivg_Color_Resolve (fuel : nat) (v_c : gcolor) (v_palette : (list rgba)) (v_cReg : (list rgba)) {struct fuel} :=
 match fuel with
 | O => (mkRGBA 0 0 0 0)
 | S fuel' =>
@@ -101,25 +101,25 @@ else ((mkRGBA 0 0 0 0)))))
 end.
 
 (* ivg:  Is1 *)
-Definition go_ivg_Is1 v_c :=
+Definition go_ivg_Is1 (v_c : rgba) :=
 let v_is1 := (fun v_u => (((v_u mod 64) =? 0) || (v_u =? 255))) in
 ((((v_is1 (cr v_c)) && (v_is1 (cg v_c))) && (v_is1 (cb v_c))) && (v_is1 (ca v_c))).
 
 (* ivg:  Is2 *)
-Definition go_ivg_Is2 v_c :=
+Definition go_ivg_Is2 (v_c : rgba) :=
 let v_is2 := (fun v_u => ((v_u mod 17) =? 0)) in
 ((((v_is2 (cr v_c)) && (v_is2 (cg v_c))) && (v_is2 (cb v_c))) && (v_is2 (ca v_c))).
 
 (* ivg:  Is3 *)
-Definition go_ivg_Is3 v_c :=
+Definition go_ivg_Is3 (v_c : rgba) :=
 ((ca v_c) =? 255).
 
 (* ivg:  ValidGradient *)
-Definition go_ivg_ValidGradient v_c :=
+Definition go_ivg_ValidGradient (v_c : rgba) :=
 (((ca v_c) =? 0) && (negb (((cb v_c) / 128 mod 2 * 128) =? 0))).
 
 (* ivg:  EncodeGradient *)
-Definition go_ivg_EncodeGradient v_cBase v_nBase v_shape v_spread v_nStops :=
+Definition go_ivg_EncodeGradient (v_cBase : Z) (v_nBase : Z) (v_shape : Z) (v_spread : Z) (v_nStops : Z) :=
 let v_cBase := (v_cBase mod 64) in
 let v_nBase := (v_nBase mod 64) in
 let v_shape := (Z.lor 2 (v_shape mod 2)) in
@@ -128,7 +128,7 @@ let v_nStops := (v_nStops mod 64) in
 (mkRGBA v_nStops (Z.lor v_cBase (wrapu 8 (v_spread * 64))) (Z.lor v_nBase (wrapu 8 (v_shape * 64))) 0).
 
 (* ivg:  DecodeGradient *)
-Definition go_ivg_DecodeGradient v_c :=
+Definition go_ivg_DecodeGradient (v_c : rgba) :=
 let v_cBase := 0 in
 let v_nBase := 0 in
 let v_shape := 0 in
@@ -142,11 +142,11 @@ let v_nStops := ((cr v_c) mod 64) in
 (v_cBase, v_nBase, v_shape, v_spread, v_nStops).
 
 (* ivg: Color Is1 *)
-Definition go_ivg_Color_Is1 v_c :=
+Definition go_ivg_Color_Is1 (v_c : gcolor) :=
 (((gtyp v_c) =? 0) && (go_ivg_Is1 (gdata v_c))).
 
 (* ivg: Color Encode1 *)
-Definition go_ivg_Color_Encode1 v_c :=
+Definition go_ivg_Color_Encode1 (v_c : gcolor) :=
 let v_x := 0 in
 let v_ok := false in
 if ((gtyp v_c) =? 0) then (
@@ -173,11 +173,11 @@ else (if ((gtyp v_c) =? 2) then (
 else ((0, false)))).
 
 (* ivg: Color Is2 *)
-Definition go_ivg_Color_Is2 v_c :=
+Definition go_ivg_Color_Is2 (v_c : gcolor) :=
 (((gtyp v_c) =? 0) && (go_ivg_Is2 (gdata v_c))).
 
 (* ivg: Color Encode2 *)
-Definition go_ivg_Color_Encode2 v_c :=
+Definition go_ivg_Color_Encode2 (v_c : gcolor) :=
 let v_x := [0; 0] in
 let v_ok := false in
 if (go_ivg_Color_Is2 v_c) then (
@@ -186,11 +186,11 @@ else (
 ([0; 0], false)).
 
 (* ivg: Color Is3 *)
-Definition go_ivg_Color_Is3 v_c :=
+Definition go_ivg_Color_Is3 (v_c : gcolor) :=
 (((gtyp v_c) =? 0) && (go_ivg_Is3 (gdata v_c))).
 
 (* ivg: Color Encode3Direct *)
-Definition go_ivg_Color_Encode3Direct v_c :=
+Definition go_ivg_Color_Encode3Direct (v_c : gcolor) :=
 let v_x := [0; 0; 0] in
 let v_ok := false in
 if (go_ivg_Color_Is3 v_c) then (
@@ -199,7 +199,7 @@ else (
 ([0; 0; 0], false)).
 
 (* ivg: Color Encode4 *)
-Definition go_ivg_Color_Encode4 v_c :=
+Definition go_ivg_Color_Encode4 (v_c : gcolor) :=
 let v_x := [0; 0; 0; 0] in
 let v_ok := false in
 if ((gtyp v_c) =? 0) then (
@@ -208,7 +208,7 @@ else (
 ([0; 0; 0; 0], false)).
 
 (* ivg: Color Encode3Indirect *)
-Definition go_ivg_Color_Encode3Indirect v_c :=
+Definition go_ivg_Color_Encode3Indirect (v_c : gcolor) :=
 let v_x := [0; 0; 0] in
 let v_ok := false in
 if ((gtyp v_c) =? 3) then (
@@ -217,13 +217,13 @@ else (
 ([0; 0; 0], false)).
 
 (* ivg: ViewBox Size *)
-Definition go_ivg_ViewBox_Size v_v :=
+Definition go_ivg_ViewBox_Size (v_v : gviewbox) :=
 let v_dx := 0 in
 let v_dy := 0 in
 ((fsub F32 (vmaxx v_v) (vminx v_v)), (fsub F32 (vmaxy v_v) (vminy v_v))).
 
 (* ivg: ViewBox AspectMeet *)
-Definition go_ivg_ViewBox_AspectMeet v_v v_dx v_dy v_ax v_ay :=
+Definition go_ivg_ViewBox_AspectMeet (v_v : gviewbox) (v_dx : Z) (v_dy : Z) (v_ax : Z) (v_ay : Z) :=
 let v_MinX := 0 in
 let v_MinY := 0 in
 let v_MaxX := 0 in
@@ -247,7 +247,7 @@ let v_maxY := (fadd F32 v_minY v_vdy) in
 (v_minX, v_minY, v_maxX, v_maxY)).
 
 (* ivg: ViewBox AspectSlice *)
-Definition go_ivg_ViewBox_AspectSlice v_v v_dx v_dy v_ax v_ay :=
+Definition go_ivg_ViewBox_AspectSlice (v_v : gviewbox) (v_dx : Z) (v_dy : Z) (v_ax : Z) (v_ay : Z) :=
 let v_MinX := 0 in
 let v_MinY := 0 in
 let v_MaxX := 0 in
@@ -271,7 +271,7 @@ let v_maxY := (fadd F32 v_minY v_vdy) in
 (v_minX, v_minY, v_maxX, v_maxY)).
 
 (* encode: buffer encodeNatural *)
-Definition go_encode_buffer_encodeNatural v_b v_u :=
+Definition go_encode_buffer_encodeNatural (v_b : (list Z)) (v_u : Z) :=
 if (v_u <? 128) then (
 let v_u := (wrapu 32 (v_u * 2)) in
 let v_b := v_b ++ [(wrapu 8 v_u)] in
@@ -287,7 +287,7 @@ let v_b := v_b ++ [(wrapu 8 v_u); (wrapu 8 (v_u / 256)); (wrapu 8 (v_u / 65536))
 v_b)).
 
 (* encode: buffer encode4ByteReal *)
-Definition go_encode_buffer_encode4ByteReal v_b v_f :=
+Definition go_encode_buffer_encode4ByteReal (v_b : (list Z)) (v_f : Z) :=
 let v_u := v_f in
 let v_v := (v_u mod 8388608) in
 if (v_v <? 8388606) then (
@@ -303,7 +303,7 @@ let v_b := v_b ++ [(wrapu 8 v_u); (wrapu 8 (v_u / 256)); (wrapu 8 (v_u / 65536))
 v_b).
 
 (* encode: buffer encodeReal *)
-Definition go_encode_buffer_encodeReal v_b v_f :=
+Definition go_encode_buffer_encodeReal (v_b : (list Z)) (v_f : Z) :=
 let v_u := (wrapu 32 (f2int 64 F32 v_f)) in
 if ((feq F32 (of_Z F32 v_u) v_f) && (v_u <? 16384)) then (
 if (v_u <? 128) then (
@@ -319,7 +319,7 @@ let v_b := (go_encode_buffer_encode4ByteReal v_b v_f) in
 (v_b, 4)).
 
 (* encode: buffer encodeCoordinate *)
-Definition go_encode_buffer_encodeCoordinate v_b v_f :=
+Definition go_encode_buffer_encodeCoordinate (v_b : (list Z)) (v_f : Z) :=
 let v_i := (f2int 32 F32 v_f) in
 if ((((-64) <=? v_i) && (v_i <? 64)) && (feq F32 (of_Z F32 v_i) v_f)) then (
 let v_u := (wrapu 32 (wraps 32 (v_i + 64))) in
@@ -338,7 +338,7 @@ let v_b := (go_encode_buffer_encode4ByteReal v_b v_f) in
 (v_b, 4))).
 
 (* encode: buffer encodeZeroToOne *)
-Definition go_encode_buffer_encodeZeroToOne v_b v_f :=
+Definition go_encode_buffer_encodeZeroToOne (v_b : (list Z)) (v_f : Z) :=
 let v_u := (wrapu 32 (f2int 64 F32 (fmul F32 v_f 1181499392))) in
 if ((feq F32 (of_Z F32 v_u) (fmul F32 v_f 1181499392)) && (v_u <? 15120)) then (
 if ((v_u mod 126) =? 0) then (
@@ -354,13 +354,13 @@ let v_b := (go_encode_buffer_encode4ByteReal v_b v_f) in
 (v_b, 4)).
 
 (* encode: buffer encodeAngle *)
-Definition go_encode_buffer_encodeAngle v_b v_f :=
+Definition go_encode_buffer_encodeAngle (v_b : (list Z)) (v_f : Z) :=
 let v_g := (f32_to_f64 v_f) in
 let v_g := (fsub F64 v_g (ffloor F64 v_g)) in
 (go_encode_buffer_encodeZeroToOne v_b (f64_to_f32 v_g)).
 
 (* encode: buffer encodeColor1 *)
-Definition go_encode_buffer_encodeColor1 v_b v_c :=
+Definition go_encode_buffer_encodeColor1 (v_b : (list Z)) (v_c : gcolor) :=
 let '(v_x, v_ok) := (go_ivg_Color_Encode1 v_c) in
 if v_ok then (
 let v_b := v_b ++ [v_x] in
@@ -370,7 +370,7 @@ let v_b := v_b ++ [0] in
 v_b).
 
 (* encode: buffer encodeColor2 *)
-Definition go_encode_buffer_encodeColor2 v_b v_c :=
+Definition go_encode_buffer_encodeColor2 (v_b : (list Z)) (v_c : gcolor) :=
 let '(v_x, v_ok) := (go_ivg_Color_Encode2 v_c) in
 if v_ok then (
 let v_b := v_b ++ [(nth 0%nat v_x 0); (nth 1%nat v_x 0)] in
@@ -380,7 +380,7 @@ let v_b := v_b ++ [0; 15] in
 v_b).
 
 (* encode: buffer encodeColor3Direct *)
-Definition go_encode_buffer_encodeColor3Direct v_b v_c :=
+Definition go_encode_buffer_encodeColor3Direct (v_b : (list Z)) (v_c : gcolor) :=
 let '(v_x, v_ok) := (go_ivg_Color_Encode3Direct v_c) in
 if v_ok then (
 let v_b := v_b ++ [(nth 0%nat v_x 0); (nth 1%nat v_x 0); (nth 2%nat v_x 0)] in
@@ -390,7 +390,7 @@ let v_b := v_b ++ [0; 0; 0] in
 v_b).
 
 (* encode: buffer encodeColor4 *)
-Definition go_encode_buffer_encodeColor4 v_b v_c :=
+Definition go_encode_buffer_encodeColor4 (v_b : (list Z)) (v_c : gcolor) :=
 let '(v_x, v_ok) := (go_ivg_Color_Encode4 v_c) in
 if v_ok then (
 let v_b := v_b ++ [(nth 0%nat v_x 0); (nth 1%nat v_x 0); (nth 2%nat v_x 0); (nth 3%nat v_x 0)] in
@@ -400,7 +400,7 @@ let v_b := v_b ++ [0; 0; 0; 255] in
 v_b).
 
 (* encode: buffer encodeColor3Indirect *)
-Definition go_encode_buffer_encodeColor3Indirect v_b v_c :=
+Definition go_encode_buffer_encodeColor3Indirect (v_b : (list Z)) (v_c : gcolor) :=
 let '(v_x, v_ok) := (go_ivg_Color_Encode3Indirect v_c) in
 if v_ok then (
 let v_b := v_b ++ [(nth 0%nat v_x 0); (nth 1%nat v_x 0); (nth 2%nat v_x 0)] in
@@ -410,7 +410,7 @@ let v_b := v_b ++ [0; 0; 0] in
 v_b).
 
 (* decode: buffer decodeNatural *)
-Definition go_decode_buffer_decodeNatural v_b :=
+Definition go_decode_buffer_decodeNatural (v_b : (list Z)) :=
 let v_u := 0 in
 let v_n := 0 in
 if ((Z.of_nat (length v_b)) <? 1) then (
@@ -434,7 +434,7 @@ else (
 (0, 0))))).
 
 (* decode: buffer decodeReal *)
-Definition go_decode_buffer_decodeReal v_b :=
+Definition go_decode_buffer_decodeReal (v_b : (list Z)) :=
 let v_f := 0 in
 let v_n := 0 in
 let '(v_u, v_n_1) := (go_decode_buffer_decodeNatural v_b) in
@@ -447,7 +447,7 @@ else (if (v_n_1 =? 2) then (
 else (((wrapu 32 (v_u * 4)), v_n_1)))).
 
 (* decode: buffer decodeCoordinate *)
-Definition go_decode_buffer_decodeCoordinate v_b :=
+Definition go_decode_buffer_decodeCoordinate (v_b : (list Z)) :=
 let v_f := 0 in
 let v_n := 0 in
 let '(v_u, v_n_1) := (go_decode_buffer_decodeNatural v_b) in
@@ -460,7 +460,7 @@ else (if (v_n_1 =? 2) then (
 else (((wrapu 32 (v_u * 4)), v_n_1)))).
 
 (* decode: buffer decodeZeroToOne *)
-Definition go_decode_buffer_decodeZeroToOne v_b :=
+Definition go_decode_buffer_decodeZeroToOne (v_b : (list Z)) :=
 let v_f := 0 in
 let v_n := 0 in
 let '(v_u, v_n_1) := (go_decode_buffer_decodeNatural v_b) in
@@ -473,7 +473,7 @@ else (if (v_n_1 =? 2) then (
 else (((wrapu 32 (v_u * 4)), v_n_1)))).
 
 (* decode: buffer decodeColor1 *)
-Definition go_decode_buffer_decodeColor1 v_b :=
+Definition go_decode_buffer_decodeColor1 (v_b : (list Z)) :=
 let v_c := (mkGColor 0 (mkRGBA 0 0 0 0)) in
 let v_n := 0 in
 if ((Z.of_nat (length v_b)) <? 1) then (
@@ -482,7 +482,7 @@ else (
 ((go_ivg_DecodeColor1 (nth 0%nat v_b 0)), 1)).
 
 (* decode: buffer decodeColor2 *)
-Definition go_decode_buffer_decodeColor2 v_b :=
+Definition go_decode_buffer_decodeColor2 (v_b : (list Z)) :=
 let v_c := (mkGColor 0 (mkRGBA 0 0 0 0)) in
 let v_n := 0 in
 if ((Z.of_nat (length v_b)) <? 2) then (
@@ -491,7 +491,7 @@ else (
 ((go_ivg_RGBAColor (mkRGBA (wrapu 8 (17 * ((nth 0%nat v_b 0) / 16))) (wrapu 8 (17 * ((nth 0%nat v_b 0) mod 16))) (wrapu 8 (17 * ((nth 1%nat v_b 0) / 16))) (wrapu 8 (17 * ((nth 1%nat v_b 0) mod 16))))), 2)).
 
 (* decode: buffer decodeColor3Direct *)
-Definition go_decode_buffer_decodeColor3Direct v_b :=
+Definition go_decode_buffer_decodeColor3Direct (v_b : (list Z)) :=
 let v_c := (mkGColor 0 (mkRGBA 0 0 0 0)) in
 let v_n := 0 in
 if ((Z.of_nat (length v_b)) <? 3) then (
@@ -500,7 +500,7 @@ else (
 ((go_ivg_RGBAColor (mkRGBA (nth 0%nat v_b 0) (nth 1%nat v_b 0) (nth 2%nat v_b 0) 255)), 3)).
 
 (* decode: buffer decodeColor4 *)
-Definition go_decode_buffer_decodeColor4 v_b :=
+Definition go_decode_buffer_decodeColor4 (v_b : (list Z)) :=
 let v_c := (mkGColor 0 (mkRGBA 0 0 0 0)) in
 let v_n := 0 in
 if ((Z.of_nat (length v_b)) <? 4) then (
@@ -509,7 +509,7 @@ else (
 ((go_ivg_RGBAColor (mkRGBA (nth 0%nat v_b 0) (nth 1%nat v_b 0) (nth 2%nat v_b 0) (nth 3%nat v_b 0))), 4)).
 
 (* decode: buffer decodeColor3Indirect *)
-Definition go_decode_buffer_decodeColor3Indirect v_b :=
+Definition go_decode_buffer_decodeColor3Indirect (v_b : (list Z)) :=
 let v_c := (mkGColor 0 (mkRGBA 0 0 0 0)) in
 let v_n := 0 in
 if ((Z.of_nat (length v_b)) <? 3) then (
@@ -518,7 +518,7 @@ else (
 ((go_ivg_BlendColor (nth 0%nat v_b 0) (nth 1%nat v_b 0) (nth 2%nat v_b 0)), 3)).
 
 (* render: Spread Clamp *)
-Definition go_render_Spread_Clamp v_s v_x :=
+Definition go_render_Spread_Clamp (v_s : Z) (v_x : Z) :=
 if (fge F64 v_x 0) then (
 if (fle F64 v_x 4607182418800017408) then (
 v_x)
@@ -547,13 +547,74 @@ else (if (v_s =? 3) then (
 else (13830554455654793216)))).
 
 (* generate:  Translate *)
-Definition go_generate_Translate v_x v_y :=
+Definition go_generate_Translate (v_x : Z) (v_y : Z) :=
 [1065353216; 0; v_x; 0; 1065353216; v_y].
 
 (* generate:  MulAff3 *)
-Definition go_generate_MulAff3 v_x v_y v_a :=
+Definition go_generate_MulAff3 (v_x : Z) (v_y : Z) (v_a : (list Z)) :=
 let v_X := 0 in
 let v_Y := 0 in
 ((fadd F32 (fadd F32 (fmul F32 v_x (nth 0%nat v_a 0)) (fmul F32 v_y (nth 1%nat v_a 0))) (nth 2%nat v_a 0)), (fadd F32 (fadd F32 (fmul F32 v_x (nth 3%nat v_a 0)) (fmul F32 v_y (nth 4%nat v_a 0))) (nth 5%nat v_a 0))).
 
-(* translated: 52, untranslated: 0  *)
+(* render: Renderer CSel *)
+Definition go_render_Renderer_CSel (f_cSel : Z) :=
+f_cSel.
+
+(* render: Renderer NSel *)
+Definition go_render_Renderer_NSel (f_nSel : Z) :=
+f_nSel.
+
+(* render: Renderer SetCSel *)
+Definition go_render_Renderer_SetCSel (f_cSel : Z) (v_cSel : Z) :=
+let f_cSel := (v_cSel mod 64) in
+f_cSel.
+
+(* render: Renderer SetNSel *)
+Definition go_render_Renderer_SetNSel (f_nSel : Z) (v_nSel : Z) :=
+let f_nSel := (v_nSel mod 64) in
+f_nSel.
+
+(* render: Renderer SetLOD *)
+Definition go_render_Renderer_SetLOD (f_lod0 : Z) (f_lod1 : Z) (v_lod0 : Z) (v_lod1 : Z) :=
+let '(f_lod0, f_lod1) := (v_lod0, v_lod1) in
+(f_lod0, f_lod1).
+
+(* render: Renderer absX *)
+Definition go_render_Renderer_absX (f_biasX : Z) (f_scaleX : Z) (v_x : Z) :=
+(fmul F32 f_scaleX (fadd F32 v_x f_biasX)).
+
+(* render: Renderer absY *)
+Definition go_render_Renderer_absY (f_biasY : Z) (f_scaleY : Z) (v_y : Z) :=
+(fmul F32 f_scaleY (fadd F32 v_y f_biasY)).
+
+(* render: Renderer relX *)
+Definition go_render_Renderer_relX (f_scaleX : Z) (v_x : Z) :=
+(fmul F32 f_scaleX v_x).
+
+(* render: Renderer relY *)
+Definition go_render_Renderer_relY (f_scaleY : Z) (v_y : Z) :=
+(fmul F32 f_scaleY v_y).
+
+(* render: Renderer unabsX *)
+Definition go_render_Renderer_unabsX (f_biasX : Z) (f_scaleX : Z) (v_x : Z) :=
+(fsub F32 (fdiv F32 v_x f_scaleX) f_biasX).
+
+(* render: Renderer unabsY *)
+Definition go_render_Renderer_unabsY (f_biasY : Z) (f_scaleY : Z) (v_y : Z) :=
+(fsub F32 (fdiv F32 v_y f_scaleY) f_biasY).
+
+(* render: Renderer absVec2 *)
+Definition go_render_Renderer_absVec2 f_biasX f_biasY f_scaleX f_scaleY (v_x : Z) (v_y : Z) :=
+let v_zx := 0 in
+let v_zy := 0 in
+((go_render_Renderer_absX f_biasX f_scaleX v_x), (go_render_Renderer_absY f_biasY f_scaleY v_y)).
+
+(* encode: Encoder quantize *)
+Definition go_encode_Encoder_quantize (f_highResolutionCoordinates : bool) (v_coord : Z) :=
+if ((negb f_highResolutionCoordinates) && ((fle F32 3271557120 v_coord) && (flt F32 v_coord 1124073472))) then (
+let v_x := (ffloor F64 (fadd F64 (fmul F64 (f32_to_f64 v_coord) 4634204016564240384) 4602678819172646912)) in
+(fdiv F32 (f64_to_f32 v_x) 1115684864))
+else (
+v_coord).
+
+(* translated: 65, untranslated: 0  *)
